@@ -371,18 +371,32 @@ fn spec_root(e: &ExpressionTree, ev: &dyn Fn(&ExpressionTree) -> Ev) -> (Expect,
             _ => (Error, "operand-error"),
         },
         ExpressionTree::In { is_not, operand, values } => {
-            // x IN (v1, v2) means x = v1 OR x = v2; x NOT IN (v1, v2) means x != v1 AND x != v2 — evaluated with the implementation's own `=`
-            // decided only when every member comparison has a value: whether an error in a later member surfaces
-            // after an earlier member already decided the result is not fixed by the sentence
-            let mut acc = *is_not;
+            // x IN (v1, v2) means x = v1 OR x = v2: the expected outcome is what the implementation itself gives the
+            // OR-chain of its own `=` (a value, or an error when a member cannot be compared with x before a match).
+            // x NOT IN (v1, v2) means x != v1 AND x != v2 — decided only when every member comparison has a value:
+            // whether an error in a later member surfaces after a NULL member already made the conjunction false is not
+            // fixed by the sentence.
+            if !*is_not {
+                let mut chain = ExpressionTree::Value(sqlgrep::model::Value::Bool(false));
+                for v in values.iter().rev() {
+                    let c = ExpressionTree::Compare { operator: CompareOperator::Equal, left: operand.clone(), right: Box::new(v.clone()) };
+                    chain = ExpressionTree::BooleanOperation { operator: BooleanOperator::Or, left: Box::new(c), right: Box::new(chain) };
+                }
+                return match ev(&chain) {
+                    Ev::Ok(b) => (Value(b), "in-as-disjunction"),
+                    Ev::Panic(_) => (Unspecified, ""),
+                    _ => (Error, "in-as-disjunction-error"),
+                };
+            }
+            let mut acc = true;
             for v in values {
-                let c = ExpressionTree::Compare { operator: if *is_not { CompareOperator::NotEqual } else { CompareOperator::Equal }, left: operand.clone(), right: Box::new(v.clone()) };
+                let c = ExpressionTree::Compare { operator: CompareOperator::NotEqual, left: operand.clone(), right: Box::new(v.clone()) };
                 match ev(&c) {
-                    Ev::Ok(b) => { if *is_not { acc = acc && b.bool(); } else { acc = acc || b.bool(); } }
+                    Ev::Ok(b) => { acc = acc && b.bool(); }
                     _ => return (Unspecified, ""),
                 }
             }
-            (Value(sqlgrep::model::Value::Bool(acc)), "in-as-disjunction")
+            (Value(sqlgrep::model::Value::Bool(acc)), "notin-as-conjunction")
         }
         ExpressionTree::Case { clauses, else_clause } => {
             for (c, r) in clauses {
